@@ -1,16 +1,8 @@
-HOOK_COMMITS = ["49c272c", "HEAD~hooks"]
+HOOK_COMMITS = ["49c272c"]
 NOTES = ("All checks: ./check <id> --tier quick|thorough. Each run rebuilds the Go harness from /repo's working tree "
          "with -tags verif, re-checks the Lean theorems of the property and runs the correspondence. "
          "KNOWN_FINDINGS.txt lists recorded and fixed defects.")
-
-_GEN = ("Trusted: Lean kernel; hand-written model fidelity is tested (not proved) by the correspondence run; "
-        "generators bound what the correspondence sees.")
-
-CHECKS = {
-    "C01": dict(text="under construction: correspondence of the VM/Gen model with the implementation on generated "
-                     "(program, text) pairs; simulation theorem in progress",
-                note=_GEN, technique="Lean 4 model + differential correspondence"),
-}
-NOT_APPLICABLE = {p: "check under construction in this round (will be claimed once its theorem and correspondence exist)"
-                  for p in ["C02", "C03", "C04", "C05", "C06", "C07", "C08", "C09", "C10", "C11", "C12", "C13", "C14",
-                            "C15", "C16", "C17", "C18", "C19", "C20"]}
+# properties whose check is registered in MANIFEST.json
+CLAIMED = ["C01"]
+_UC = "check under construction in this round (will be claimed once its theorem and correspondence exist)"
+NOT_APPLICABLE = {f"C{i:02d}": _UC for i in range(1, 21)}
